@@ -23,6 +23,9 @@ func triggerOf(st *core.Step) string {
 	if r, ok := st.Intent["invalid"]; ok {
 		t += ":" + r
 	}
+	if st.Cwd != "" {
+		t += ":cwd-inside-goit"
+	}
 	return t
 }
 
@@ -99,6 +102,19 @@ func runC03(c *core.Ctx) {
 			if st.Kind == "goit" {
 				r := st.Post.Repo()
 				c.Class(fmt.Sprintf("%s|%s|br%d|idx%v|log%v", st.Cmd(), st.Intent["invalid"], min(len(r.Branches), 3), r.IndexPresent, len(r.LogHEAD) > 0))
+			}
+		}
+		// last steps of a few histories: path commands issued with the current directory INSIDE .goit.
+		// Goit resolves every path (and the '.goit/' exclusion) against the current directory, so an
+		// object file can be staged and removed there. Recorded as an open known finding; the history ends here.
+		if w.Hist%10 == 7 {
+			ids := gitfmt.SortedKeys(w.State().Repo().Objects)
+			if len(ids) > 0 {
+				id := ids[k.R.IntN(len(ids))]
+				p := "objects/" + id[:2] + "/" + id[2:]
+				c.Count("C03.cwd-inside-goit-probes")
+				w.GoitIn(".goit", "add", p)
+				w.GoitIn(".goit", "rm", p)
 			}
 		}
 	})
@@ -185,7 +201,7 @@ func crashTrigger(st *core.Step) string {
 }
 
 // legal single-component branch names with characters that parsers of HEAD / reflog / refs may trip over
-var oddBranchNames = []string{"a: b", "x y", "q:r", "émile", "a'b", "semi;colon", "~t", "^c", "ref: refs", "HEAD", "a b: c d", "[br]", "a(b", "日本", "-dash-inside", "tab-less"}
+var oddBranchNames = []string{"a: b", "x y", "q:r", "émile", "a'b", "semi;colon", "~t", "^c", "ref: refs", "HEAD", "a b: c d", "[br]", "a(b", "日本", "-dash-inside"[1:], "tab-less", "topic ", " lead", "x  ", ".dot", "a.", "%s", "100%"}
 
 var subcommands = []string{"init", "add", "rm", "commit", "status", "log", "reflog", "branch", "switch", "reset", "restore", "update-ref", "config", "cat-file", "hash-object", "ls-files", "rev-parse", "write-tree", "version", "help"}
 
